@@ -14,6 +14,7 @@ func init() {
 	register(&Prop{ID: "C08", Run: runC08,
 		Technique: "static analysis: must-pass-through of the status writes in Agent.Run and of the done notification in the worker, decision tables of the latest-status query and of the status getter, field coverage of the recorder / restorer (go/ssa)",
 		Decided: []string{
+			"every non-nil error of the socket client's request wraps a library call's error or is the timeout sentinel under a Timeout() test (C08.client-errors-are-transport, shared with C16); the times handed to the history store are not moved to another zone (C08.day-is-calendar-day, shared with C06)",
 			"the run's socket is served until the agent shuts it down: every way out of the accept loop is under the shutdown flag (C08.serve-until-shutdown)",
 			"run state that other goroutines read under a mutex (node state, cmd, cancelFunc, Scheduler.lastError / canceled, graph start/finish times - the set is inferred from the code's own locked reads and writes) is written with that mutex held everywhere outside the construction phase, and node state is read from outside the node's methods only under it (C08.state-lock)",
 			"a status is written after a successful Open, after Schedule on every path to the return, and on every node notification (C08.write-points); the worker notifies on every exit after launch (C08.done-on-every-exit)",
@@ -35,6 +36,8 @@ func runC08(e *Env) {
 	}
 	c08WritePoints(e, s)
 	c08Latest(e)
+	c06CalendarDay(e, "C08.day-is-calendar-day")          // the latest-status query finds a run by the day its file name carries
+	c16ClientErrors(e, "C08.client-errors-are-transport") // the status getter reads every non-timeout error as `not running`
 	c08PersistedFields(e, s)
 	c08LiveIsRunning(e)
 	c08ServeUntilShutdown(e, "C08.serve-until-shutdown")
